@@ -26,6 +26,7 @@ import (
 type mergeProcessor struct {
 	mergeSettings  mergeSettings
 	currentResults *iqr.IQR
+	hasFinalResult bool // Only used when merging stats.
 }
 
 func (p *mergeProcessor) Process(nextIQR *iqr.IQR) (*iqr.IQR, error) {
@@ -39,7 +40,11 @@ func (p *mergeProcessor) Process(nextIQR *iqr.IQR) (*iqr.IQR, error) {
 	}
 
 	if nextIQR == nil {
-		return p.currentResults, io.EOF
+		// Hand out a copy: the commands downstream modify what they are
+		// given in place, and the merged result is asked for again after a
+		// Rewind().
+		p.hasFinalResult = true
+		return p.currentResults.Copy(), io.EOF
 	}
 
 	if p.currentResults == nil {
@@ -62,7 +67,9 @@ func (p *mergeProcessor) Process(nextIQR *iqr.IQR) (*iqr.IQR, error) {
 }
 
 func (p *mergeProcessor) Rewind() {
-	p.currentResults = nil
+	// Keep the merged stats. The input streams hand out the very buckets that
+	// were merged into currentResults, so merging them again would count
+	// them twice.
 }
 
 func (p *mergeProcessor) Cleanup() {
@@ -70,5 +77,9 @@ func (p *mergeProcessor) Cleanup() {
 }
 
 func (p *mergeProcessor) GetFinalResultIfExists() (*iqr.IQR, bool) {
+	if p.hasFinalResult {
+		return p.currentResults.Copy(), true
+	}
+
 	return nil, false
 }
